@@ -268,7 +268,7 @@ func (c08) Run(c *Case, src *vs.Src) *Result {
 				for _, k := range seq {
 					// the client answers ServerHelloDone with its flight, which carries the key exchange: read it
 					// before anything that needs keys
-					if (k == "CCS" || k == "FIN") && !readDone && resumeMaster == nil {
+					if (k == "CCS" || k == "CCS0" || k == "FIN") && !readDone && resumeMaster == nil {
 						ops = append(ops, "rFLIGHT")
 						readDone = true
 					}
@@ -330,7 +330,15 @@ func (c08) Run(c *Case, src *vs.Src) *Result {
 	completed := o.err == nil && o.cs.Done
 	// what the real endpoint was actually sent (the script may have stopped early when the endpoint had already given up)
 	var delivered []string
+	switched := false
 	for _, k := range o.sent {
+		if k == "CCS0" {
+			switched = true
+			continue // not a message: the peer switched its write keys without telling (nothing went on the wire)
+		}
+		if k == "CCS" && switched {
+			k = "CCS(protected)" // a ChangeCipherSpec sent under the new keys is not the message the flow names
+		}
 		delivered = append(delivered, c08Kind(k))
 	}
 	if !realIsClient && p.Stack == DTLCP {
